@@ -12,7 +12,7 @@ CONSTANTS
   Reqs = {"w2:a0", "w2:a1"}
   Dests = {"", "a1"}
   ActRs = {"a0", "a1"}
-  Tams = {"none", "strip", "nosig", "junk", "otherkey", "otherkey_raddr", "amount", "exc_spart", "exc_rpart", "exc_cb", "sender", "raddr", "saddr", "saddr_sig"}
+  Tams = {"none", "strip", "nosig", "junk", "otherkey", "otherkey_raddr", "amount", "amount_slate", "exc_spart", "exc_rpart", "exc_cb", "sender", "raddr", "saddr", "saddr_sig"}
   FApis = {FALSE, TRUE}
   Forks = TRUE
   MultiMut = TRUE
